@@ -30,6 +30,8 @@ STR_PROPS = {
 
 DET_PROPS = {"C06": ("exploration", "Output bytes identical across schedules/knobs/history")}
 
+BUDGETS_ERR = {"quick": (32, 10), "thorough": (480, 40)}
+
 BUDGETS = {
     "det": {"quick": (36, 8), "thorough": (540, 30)},
     "graph": {"quick": (32, 10), "thorough": (640, 40)},
@@ -123,6 +125,24 @@ def run_det_family(prop, tier, seed):
     return report_and_exit(prop, ev, violations)
 
 
+def run_err_family(prop, tier, seed):
+    from . import family_err
+    nwl, nsched = BUDGETS_ERR[tier]
+    ev = Evidence(prop, tier, seed, "exploration")
+    ev.rule = ("a class is a failing or warning-only link with 2-6 independent problems spread over "
+               "objects/groups (undefined symbols, duplicate definitions, out-of-range relocations at "
+               "write time, failing ASSERTs, mixed, --warn-unresolved-symbols) with partitioning knobs "
+               "and hash seed held fixed; runs of a class vary thread count 1..8 and schedule; exit "
+               "status, error text and the set of warning blocks must be identical. "
+               "distinct_nontrivial = distinct (class, interleaving-hash) pairs with a context switch")
+    ev.assumptions = ["SC interleavings", "partitioning knobs and hash seed fixed within a class because "
+                      "the property speaks of thread count and scheduling only"]
+    jobs = [{"prop": prop, "seed": seed, "index": i, "tier": tier, "schedules": nsched}
+            for i in range(nwl)]
+    violations = _collect(prop, ev, pool_imap(family_err.run_job, jobs))
+    return report_and_exit(prop, ev, violations)
+
+
 REQUIRED_PROBES = {
     "C40": ["probe_reserve_cas_lost", "probe_reserve_low", "probe_bucket_parked",
             "probe_put_resumes_parked_bucket", "probe_multi_group_sections"],
@@ -149,6 +169,8 @@ def run(prop, tier, seed):
         return run_str_family(prop, tier, seed)
     if prop in DET_PROPS:
         return run_det_family(prop, tier, seed)
+    if prop == "C26":
+        return run_err_family(prop, tier, seed)
     raise HarnessError(f"no check for {prop}")
 
 
@@ -167,6 +189,11 @@ def replay(path):
         job = dict(rp["job"])
         job["prop"] = doc["property"]
         res = family_str.run_job(job)
+    elif fam == "err":
+        from . import family_err
+        job = dict(rp["job"])
+        job["prop"] = doc["property"]
+        res = family_err.run_job(job)
     elif fam == "det":
         from . import family_det
         job = dict(rp["job"])
